@@ -293,6 +293,10 @@ def inject(doc, kind, loc, seed):
         if v is None or v == old:
             return None
         _set(s, ei, ci, v)
+        if kind == 'required-removed' and ci is not None and r.random() < .6:
+            # the usual spelling of a composite that lost its last component(s): trailing separators trimmed
+            while len(s.vals[ei]) > 1 and s.vals[ei][-1] == '':
+                s.vals[ei].pop()
         if not any(any(x) for x in s.vals):
             return None      # would leave an empty segment: a different fault
         exp.update(ele=ei + 1, sub=(ci + 1) if ci is not None else None, codes=sorted(EXPECT[kind]), value=v or None, local=True, level='ele')
